@@ -102,6 +102,33 @@ def _dict_update_as_stores(st: ast.stmt) -> Optional[List[ast.stmt]]:
     return out
 
 
+def _iter_sentinel_loop(st: ast.stmt) -> Optional[List[ast.stmt]]:
+    """`for x in iter(F, S): BODY` (two-argument iter) is `while True: x = F(); if x == S: break; BODY`; a parameterless
+    lambda F is called by writing its body"""
+    if not (isinstance(st, ast.For) and not st.orelse and isinstance(st.iter, ast.Call) and isinstance(st.iter.func, ast.Name) and st.iter.func.id == "iter"
+            and len(st.iter.args) == 2 and not st.iter.keywords and isinstance(st.target, ast.Name)):
+        return None
+    f, sentinel = st.iter.args
+    if isinstance(f, ast.Lambda) and not (f.args.args or f.args.vararg or f.args.kwarg or f.args.kwonlyargs or f.args.posonlyargs):
+        call: ast.AST = copy.deepcopy(f.body)
+    elif _simple(f):
+        call = ast.Call(copy.deepcopy(f), [], [])
+    else:
+        return None
+    if not isinstance(sentinel, ast.Constant):
+        return None
+    get = ast.copy_location(ast.Assign([ast.Name(st.target.id, ast.Store())], call), st)
+    if isinstance(sentinel.value, (bytes, str)) and len(sentinel.value) == 0 and isinstance(call, ast.Call) and isinstance(call.func, ast.Attribute) and call.func.attr in ("read", "read1", "recv", "readline"):
+        # a read returns bytes / str: equal to the empty constant exactly when it is empty
+        test: ast.AST = ast.UnaryOp(ast.Not(), ast.Name(st.target.id, ast.Load()))
+    else:
+        test = ast.Compare(ast.Name(st.target.id, ast.Load()), [ast.Eq()], [copy.deepcopy(sentinel)])
+    stop = ast.copy_location(ast.If(test, [ast.copy_location(ast.Break(), st)], []), st)
+    loop = ast.copy_location(ast.While(ast.Constant(True), [get, stop] + list(st.body), []), st)
+    ast.fix_missing_locations(loop)
+    return [loop]
+
+
 class Expander:
     def __init__(self, mod):
         self.mod = mod
@@ -408,6 +435,8 @@ class Expander:
                 if r:
                     rep = self._inline_generator(r[1], r[2], caller_names, st)
             if rep is None:
+                rep = _iter_sentinel_loop(st)
+            if rep is None:
                 rep = _dict_update_as_stores(st)
             if rep is not None:
                 changed[0] = True
@@ -455,6 +484,8 @@ class Expander:
     def _has_candidate(self, fn: ast.AST, cls: Optional[str], qual: str) -> bool:
         for n in ast.walk(fn):
             if isinstance(n, ast.Expr) and _dict_update_as_stores(n) is not None:
+                return True
+            if isinstance(n, ast.For) and _iter_sentinel_loop(n) is not None:
                 return True
             if isinstance(n, ast.Call):
                 f = n.func
